@@ -315,10 +315,6 @@ Section Flow.
 End Flow.
 
 (* ---------- the statements ---------- *)
-(* every Symbol leaf of the inputs was collected into excluded_symbols *)
-Definition excl_complete (excl : hset) (es : list expr) : bool :=
-  forallb (fun e => forallb (fun n => hset_mem (ESym n) excl) (syms e)) es.
-
 Lemma wfreps_app : forall excl a b, wfreps excl (a ++ b) -> wfreps excl b.
 Proof.
   induction a as [|[s r] a IH]; intros b H; cbn [app wfreps] in H; [exact H|]. apply IH. apply H.
